@@ -263,3 +263,98 @@ def smap_histories(ctx, tag: str, N: int, nmax: int):
                 break
             cov.hit("e2e-smap-call-ok")
         cov.traces += 1
+
+
+def sphere_histories(ctx, tag: str, N: int, nmax: int):
+    """HypersphereART fit / partial_fit / predict histories replayed by the Lean model on IEEE doubles:
+    the same generic definitions at `Float` (+, -, *, /, sqrt are bit-identical to numpy's).  Labels must
+    agree exactly and weights to 1e-12; a history is skipped (counted) when two activations or a match
+    value and its threshold are closer than 1e-12 (float-ambiguous decision)."""
+    from ..common import f2hex, mat_f, parse_mat_f
+    cov = ctx.cov
+    lines, metas = [], []
+    for i in range(N):
+        r = gen.rng_for(ctx.seed, tag + "-sph", i)
+        d = r.randint(1, 3)
+        spec = specs.elem_spec(r, "HypersphereART", d)
+        n = r.randint(1, nmax)
+        X = specs.elem_data(r, "HypersphereART", n, d, floats=r.random() < 0.3)
+        mode = r.choice(MODES)
+        eps = r.choice([0.0, 2.0 ** -20, 2.0 ** -10, 0.125])
+        has_reset = r.random() < 0.4
+        vt = gen.veto_table(r, 2 * n + 4, 2 * n + 5) if has_reset else None
+        m = make(spec)
+        rec = Recorder(m)
+        counter = {"i": 0}
+
+        def reset(i_, w_, c_, params, cache, _vt=vt, _c=counter):
+            return not _vt[len(rec.steps) - 1][c_]
+        parts = gen.compositions(r, n)
+        calls = [("fit", X)] if r.random() < 0.4 else [("pfit", B) for B in gen.split(X, parts)]
+        if r.random() < 0.5:
+            calls.append(("pred", X[: max(1, n // 2)]))
+        kw = dict(match_reset_func=reset if has_reset else None, match_tracking=mode, epsilon=eps)
+        snaps, failed = [], None
+        for op, B in calls:
+            try:
+                with quiet():
+                    if op == "fit":
+                        m.fit(B, **kw)
+                    elif op == "pfit":
+                        m.partial_fit(B, **kw)
+                    else:
+                        snaps.append(("pred", [int(t) for t in m.predict(B)]))
+                        continue
+                snaps.append(("st", [np.array(w, dtype=float) for w in m.W], [int(t) for t in m.labels_]))
+            except Exception as e:
+                failed = (op, e)
+                break
+        rep = {"class": "HypersphereART", "spec": spec, "mode": mode, "eps": eps, "veto": vt, "calls": [(o, b) for o, b in calls]}
+        if failed:
+            ctx.issue("violation", f"HypersphereART.{failed[0]}:{exc_enum(failed[1])}", f"{failed[0]} raised {failed[1]!r}", rep)
+            continue
+        # float-ambiguous decisions: skip the comparison for this history
+        amb = False
+        for st in rec.steps:
+            T = sorted(t for t in st.Tcalls if t == t)
+            if any(abs(a - b) <= 1e-12 * (1 + abs(a)) and a != b for a, b in zip(T, T[1:])):
+                amb = True
+            for mv, mb, rho_ in st.Mseq:
+                if rho_ is not None and mv[0] != rho_ and abs(mv[0] - rho_) <= 1e-12:
+                    amb = True
+        if amb:
+            cov.hit("sphere-e2e:float-ambiguous-skipped")
+            continue
+        total = sum(len(B) for o, B in calls if o != "pred")
+        hdr = (f"hist base sph {mode} {f2hex(eps)} {vt_str(vt, total)} {f2hex(spec['rho'])} {f2hex(spec['alpha'])} "
+               f"{f2hex(spec['beta'])} {f2hex(spec['r_hat'])}")
+        lines.append(hdr + " # " + " # ".join(f"{op} {mat_f(B)}" for op, B in calls))
+        metas.append((i, snaps, rep))
+        cov.case(("sph", spec, X.tolist(), mode, eps, parts, vt), n > 1)
+    outs = run_driver(lines)
+    for line, out, (i, snaps, rep) in zip(lines, outs, metas):
+        rep = dict(rep, line=line, model=out)
+        got = out.split(" # ")
+        if out == "bad-op" or len(got) != len(snaps):
+            ctx.issue("diff", "e2e:HypersphereART:protocol", f"case {i}: model output {out[:80]}", rep)
+            continue
+        for k, (g, s) in enumerate(zip(got, snaps)):
+            if s[0] == "pred":
+                if parse_optnats(g[len("pred="):]) != s[1]:
+                    ctx.issue("diff", "e2e:HypersphereART:predict", f"case {i} call {k}: impl {s[1]} model {g}", rep)
+                    break
+                continue
+            kv = parse_kv(g)
+            if parse_nats(kv["labels"]) != s[2]:
+                ctx.issue("diff", "e2e:HypersphereART:labels", f"case {i} call {k}: impl labels {s[2]} model {kv['labels']}", rep)
+                break
+            Wm = parse_mat_f(kv["W"])
+            ok = len(Wm) == len(s[1]) and all(len(a) == len(b) and all(x == y or abs(x - y) <= 1e-12 * (1 + abs(y)) for x, y in zip(a, b))
+                                              for a, b in zip(s[1], Wm))
+            if not ok:
+                ctx.issue("diff", "e2e:HypersphereART:W", f"case {i} call {k}: weights differ", rep)
+                break
+            if all(len(a) == len(b) and all(x == y for x, y in zip(a, b)) for a, b in zip(s[1], Wm)):
+                cov.hit("sphere-e2e:bit-identical")
+            cov.hit("sphere-e2e:call-ok")
+        cov.traces += 1
